@@ -7,7 +7,7 @@ from typing import Dict, List, Optional, Set, Tuple
 from .pathflow import uses_only_name_files
 from .core import AnalysisError, Report
 from .effects import Effects, FuncId, FS_READ, FS_WRITE, MAY_REJECT, NONDET
-from .prog import (ClassInfo, attr_def, ModuleInfo, Program, dotted, enclosing, func_params, guards_of, inline_locals,
+from .prog import (ClassInfo, attr_def, order_free_use, ModuleInfo, Program, dotted, enclosing, func_params, guards_of, inline_locals,
                    local_assignments, parent, stmt_of, unparse, walk_no_nested)
 
 SWALLOWING = {"Exception", "BaseException", "ParseBaseException", "ParseException",
@@ -559,6 +559,9 @@ def rule_no_unordered(ctx, rep: Report, rid="R2"):
             p = parent(n)
             # membership-only uses are order-free
             if isinstance(p, ast.Compare) and n in p.comparators and all(isinstance(o, (ast.In, ast.NotIn)) for o in p.ops):
+                continue
+            # so is everything that only asks the set a question (truth, length, algebra, sorted(), an error message)
+            if order_free_use(n, enclosing(n, (ast.FunctionDef, ast.Module)) or mi.tree):
                 continue
             if isinstance(p, ast.Assign) and len(p.targets) == 1 and isinstance(p.targets[0], ast.Name):
                 nm = p.targets[0].id
